@@ -439,6 +439,8 @@ def o_fault_call(p, cfg):
         store.store_object(None, tmp_input(root, content, "o.bin"))
     if sc.startswith("delete_object"):
         store.store_object(pid, tmp_input(root, content, "p.bin"))
+        if "without the data object" in sc:
+            os.remove(lay.obj_path(cid))
     if "already bound to the requested cid" in sc:
         store.store_object(pid, tmp_input(root, content, "p.bin"))
     if "bound to another cid" in sc:
@@ -2013,7 +2015,64 @@ def o_race_cid_pause(p, cfg):
     return False, "the tagger waited until the delete was done"
 
 
+def o_meta_overwrite_reader(p, cfg):
+    """C12 (lock-free reader): retrieve_metadata is issued at every file-system mutation that an
+    overwriting store_metadata performs on the metadata tree (just before the primitive runs, i.e.
+    between two primitives).  Every sequential order of store(v2) and retrieve on a present document
+    yields v1 or v2; a not-found error or other bytes is a non-linearizable observation."""
+    import hashstore.filehashstore as fhs
+    store, props, root = new_store(cfg)
+    pid, fmt = "pid-overwrite", "fmt-overwrite"
+    v1, v2 = b"<v1>" + b"a" * 3000 + b"</v1>", b"<v2>" + b"b" * 5000 + b"</v2>"
+    store.store_metadata(pid, io.BytesIO(v1), fmt)
+    seen = []
+    real = {"move": shutil.move, "remove": os.remove, "unlink": os.unlink, "rename": os.rename,
+            "replace": os.replace}
+    busy = {"on": False}
+
+    def observe(where):
+        if busy["on"]:
+            return
+        busy["on"] = True
+        try:
+            def rd():
+                s = store.retrieve_metadata(pid, fmt)
+                try:
+                    return s.read()
+                finally:
+                    s.close()
+            seen.append((where, outcome(rd)))
+        finally:
+            busy["on"] = False
+
+    def wrap(name):
+        def f(*a, **k):
+            observe(f"before {name}({', '.join(os.path.basename(str(x)) for x in a[:2])})")
+            r = real[name](*a, **k)
+            observe(f"after {name}")
+            return r
+        return f
+    shutil.move, os.remove, os.unlink = wrap("move"), wrap("remove"), wrap("unlink")
+    os.rename, os.replace = wrap("rename"), wrap("replace")
+    try:
+        res = outcome(store.store_metadata, pid, io.BytesIO(v2), fmt)
+    finally:
+        shutil.move, os.remove, os.unlink = real["move"], real["remove"], real["unlink"]
+        os.rename, os.replace = real["rename"], real["replace"]
+    shutil.rmtree(root, ignore_errors=True)
+    if res[0] != "return":
+        return None, f"the overwriting store_metadata failed: {res[1]}"
+    bad = [(w, o) for w, o in seen if o[0] != "return" or o[1] not in (v1, v2)]
+    if bad:
+        w, o = bad[0]
+        what = f"{o[1]}" if o[0] == "raise" else f"{len(o[1])} bytes that are neither version"
+        return True, (f"retrieve_metadata issued {w} during store_metadata(pid, v2) over an existing document "
+                      f"got {what}; no sequential order of the two calls gives that")
+    return False, f"{len(seen)} reads between the primitives of the overwrite all returned v1 or v2"
+
+
 ORACLES["race_cid_pause"] = o_race_cid_pause
+ORACLES["meta_overwrite_reader"] = o_meta_overwrite_reader
 ORACLES["race_lock_order"] = o_race_lock_order
 ORACLES["race_slow_store_meta"] = o_race_slow_store_meta
 ORACLES["uppercase_cid"] = o_uppercase_cid
